@@ -9,6 +9,7 @@ CONSTANTS
   MaxParse = 2
   Family = "c15"
   Reconfigure = FALSE
+  Small = FALSE
   Emit = TRUE
 INVARIANTS
   Inv_ExpectIff
